@@ -7,7 +7,7 @@ C04_TEXT = dict(
         "for every message and every partition into update calls': "
         "I (*_init): chaining value == the standard's IV, nothing absorbed. "
         "T (compression): one call of md5_transform / sha1_transform_generic / sha2_transform_block64|128_generic / "
-        "gost3411_2012_transform_n|_1_generic (and the run-time dispatchers) leaves hash' == spec_compress(hash, block), "
+        "gost3411_2012_transform_n|_1_generic (and the run-time dispatchers) leaves hash' == spec_compress(hash, block) (GOST g_N: also N' == N + bits, Sigma' == Sigma + m; proved modularly: 512-bit adders, X.L.P.S steps and their composition separately), "
         "the spec functions being written from RFC 1321, FIPS 180-4 and RFC 6986 (specs/*_spec.h; executed natively against the "
         "published vectors and, for MD5/SHA, against Python's hashlib on every length 0..300 and against sin()/prime roots for the "
         "constant tables: python3 harness/C04/spec_selftest.py); one job per source-alignment class and for block == ctx->buffer. "
@@ -24,20 +24,18 @@ C04_TEXT = dict(
     not_covered=[
         "SSE2/SSSE3/SSE4.1, SHA-NI, AVX/AVX2 transforms and the CPUID dispatch (intrinsics and inline assembly are outside CBMC; "
         "compiled out with #undef __SSE2__ exactly like tests/hash/main.c); compiler/optimisation-level variants",
-        "T for multi-block calls of the SHA-2 transforms against the specification: the monolithic two-block equivalence does not "
-        "close (cvc5 returns error/unknown after 210-270 s, z3 and SAT never finish), a self-composition check (one call over 2 blocks == "
-        "two calls) needs 16 GB. Closed instead: one block (all alignment classes, aliasing shape, dispatcher) for every transform, "
-        "two blocks for SHA-1 (monolithic and by self-composition for 2 and 3 blocks); the block loop's carry statement "
-        "A = (hash[0] += A) ... is the same text in SHA-1 and SHA-2",
-        "GOST g_N step with the N and Sigma updates (gost3411_2012_transform_n[_generic]) against the specification: cvc5 gives up "
-        "(error/unknown) after 17 min, not registered. Closed: g_0 (gost3411_2012_transform_1[_generic], the same E/LPS pipeline "
-        "without the two 512-bit additions and without the alignment branch), the table identity Ax == L.P.S for all 2048 entries, "
-        "the constants C, and everything around the transforms (I, U, F); the 512-bit adders gost3411_2012_addmod512[_digit] are "
-        "therefore covered only by being executed inside U/F's replaced callee, i.e. not at all",
-        "GOST3411_2012_USE_SMALL_TABLES build variant (no job)",
+        "monolithic equivalences that do not close and were replaced by modular proofs: SHA-2 transform over two blocks against the "
+        "specification (cvc5 error after 210-270 s; self-composition needs 16 GB) -> T for one block plus T.loop (block loop for any "
+        "number of blocks: working variables == ctx->hash at every loop head, whole blocks, frame, termination); GOST g_N step against "
+        "the specification as one query (cvc5 error after 17 min, also with the adders replaced; with LPS as CBMC uninterpreted functions "
+        "neither SAT, z3 nor cvc5 finish in 15 min) -> adders, XSLP/SLP under their own contracts plus a lock-step-oracle composition "
+        "proof that holds for every function LPS (jobs gost.T.gN.*, gost.T.g0.comp*)",
+        "GOST3411_2012_USE_SMALL_TABLES build: covered are the tables (== RFC 6986 pi, tau, A, C), gost3411_2012_XSLP / _SLP == LPS and "
+        "the g_N / g_0 compositions; the I/U/F/one-shot jobs were run in the big-table build only (that code does not depend on the "
+        "table variant)",
         "U safety half for an unbounded data_size is closed for MD5 only; for SHA-1/SHA-2/GOST a symbolic-length write inside the "
-        "448..864-byte context makes the unbounded formula 13.7 M variables and no back end finishes: replaced by an exact-size span "
-        "with data_size <= 66 (quick) / 2B+2 (thorough) and a symbolic entry tail",
+        "448..864-byte context makes the unbounded formula 13.7 M variables and no back end finishes (SAT, CaDiCaL, kissat, z3; independent of "
+        "--trace): replaced by an exact-size span with data_size <= 66 (quick) / 2B+2 (thorough) and a symbolic entry tail",
         "U content half is bounded (data_size <= 66, thorough also <= 2B+2 = 130 for the boundary tails; one job per entry tail length; "
         "quick tier: tails 0, 1 and the padding-boundary residues B-9, B-8, B-1 (GOST: 0, 1, 62, 63), thorough tier: 12 further tail "
         "lengths per algorithm - all B tail lengths would be about 7 CPU-hours). For the 128-byte block size the U jobs are in the "
@@ -52,6 +50,8 @@ C04_TEXT = dict(
     assumptions=[
         "CBMC 6.11 models pointers as (object, offset): the low bits of (size_t)pointer are the offset inside the object, which is "
         "how the alignment classes of the T jobs are selected",
+        "the composition jobs gost.T.gN.* / gost.T.g0.comp* use goto-instrument --replace-call-with-contract without --dfcc (CBMC's "
+        "original contract replacement: requires asserted, assigns havocked, ensures assumed) in a plain harness",
         "term alignment of the specifications (documented in specs/*.h): MD5/SHA sums written in the association the solver needs, "
         "Ch/Maj spelled with OR (proved equal to the FIPS spelling by job sha.lemma.ch_maj), SHA-256 schedule scratch laid out like "
         "the library's under CBMC, GOST LPS in table form (proved entry by entry by job gost.tables); the native self test runs the same text",
